@@ -1,3 +1,4 @@
 import Vore.Model.Basic
 import Vore.Model.Process
 import Vore.Props.C20
+import Vore.Model.Lexer
